@@ -1049,6 +1049,9 @@ func (ex *Exec) zeroOfSort(s *Sort) *Term {
 	case KArray:
 		return ex.constArray(ex.zeroOfSort(s.Elem), s.Elem)
 	case KUnint:
+		if s.Name == "Str" {
+			return cnst("str_empty", s) // the zero value of a string is the empty string literal
+		}
 		return cnst("zero_"+s.Name, s)
 	}
 	panic("zero of " + s.String())
